@@ -64,6 +64,13 @@ def fresh_process_table(n, values, comp, K) -> bytes | None:
 
 def game_for(rng, n, comp):
     r = rng.random()
+    if r < 0.12:
+        # a superadditive game (where intervals of unknown coalitions often collapse) with a few values changed: the true
+        # value of a coalition then differs from its collapsed interval ("measured data", games of any class)
+        v = gen.sa_game(rng, n, rng.choice(["addsur_int", "int", "convex_int"]))[0]
+        for m in rng.sample(gen.explorable(n), min(len(gen.explorable(n)), rng.randint(1, 3))):
+            v[m] += rng.choice([-3, -2, -1, 1, 2, 3])
+        return "sa_perturbed", v
     if r < 0.25:
         fam = rng.choice(["arbitrary_int", "arbitrary_float"])
         v = [0.0] + [float(rng.randint(-9, 9)) if fam == "arbitrary_int" else rng.uniform(-5, 5) for _ in range((1 << n) - 1)]
@@ -147,6 +154,13 @@ def env_case(ctx, case) -> None:
         for a in [int(x) for x in np.nonzero(env.action_masks())[0]]:
             env.step(a)
             mid = snap()
+            # the table the env shows after the step must be the table of its current knowledge (fresh object, same computer)
+            Kmid = boundcore.known_set_of(env.incomplete_game)
+            ctx.count("env_tables_compared_with_fresh")
+            if mid[0] != canonical(case.setdefault("_cache", {}), n, values, comp, Kmid):
+                ctx.violation("history-dependent-bounds", f"after env.step({a}) the table differs from a fresh object's table for the same "
+                              f"knowledge K={Kmid} (n={n}, computer={comp}, gap={gapname}, after actions {case['actions']})",
+                              {k: v for k, v in case.items() if not k.startswith("_")})
             env.unstep(a)
             after = snap()
             ctx.count("env_step_unstep_pairs")
@@ -220,6 +234,12 @@ def run(ctx) -> None:
             k2 = rng.choice([-40, -20, 20, 40])
             values = [v * 2.0 ** k2 for v in values]
         if rng.random() < 0.3 and n <= 5:
+            if rng.random() < 0.4 and n >= 4:
+                values = gen.sa_game(rng, n, rng.choice(["addsur_int", "int", "convex_int"]))[0]
+                for m_ in rng.sample(gen.explorable(n), rng.randint(1, 3)):
+                    values[m_] += rng.choice([-3, -2, -1, 1, 2, 3])
+                fam = "sa_perturbed"
+                ctx.count("env_cases_on_perturbed_games")
             ex = list(range((1 << n) - n - 2))
             rng.shuffle(ex)
             env_case(ctx, {"n": n, "family": fam, "values": values, "computer": comp, "gap": rng.choice(list(GAPS)),
